@@ -46,6 +46,7 @@ def plan(tier, seed):
     n, per = (10, 260) if tier == 'quick' else (40, 900)
     specs = [{'kind': 'api', 'seed': seed * 1000 + j, 'count': per} for j in range(n)]
     specs += [{'kind': 'truncations', 'part': i, 'parts': 4, 'seed': seed} for i in range(4)]
+    specs += [{'kind': 'corpus', 'part': i, 'parts': 4} for i in range(4)]
     specs += [{'kind': 'cli', 'seed': seed * 1000 + 700 + j, 'count': 14 if tier == 'quick' else 50} for j in range(4)]
     specs += [{'kind': 'options', 'part': i, 'parts': 6} for i in range(6)]
     return specs
@@ -133,7 +134,8 @@ def random_text(r):
     return ''.join(r.choice(alphabet) for _ in range(n))
 
 
-HOSTILE_FRAGMENTS = ['"\\u{FFFFFFFFFFFF}"', '"\\u{110000}"', '"\\u{d800}"', "'\\u{e9}'", '"\\x4"', '"\\q"', "''", "'ab'", '"abc', "'a", '0x', '0b2', '1_', '1__0',
+HOSTILE_FRAGMENTS = ['0xFF__FF', '0x__1', '0x_1', '0xF_', '0b1__0', '0o7__7', '0b_1', '0o_7', '1__0', '0_', '007', '0_10', '08', 'x is 5', 'x is empty', 'x is foo', 'x is',
+                     'x is int[', 'x is []', 'x is is', '1 is int is', '"\\u{FFFFFFFFFFFF}"', '"\\u{110000}"', '"\\u{d800}"', "'\\u{e9}'", '"\\x4"', '"\\q"', "''", "'ab'", '"abc', "'a", '0x', '0b2', '1_', '1__0',
                      '@if', '!', '@', '!!x', '??', '? ?', '$', '#', '`', '\\', '"\\', '//', '/* */', '\x00', '\ufeff', '[', ']', '{', '}', '(', ')',
                      'is is', 'is empty', 'empty x', 'const', 'const const int x = 1;', 'int[] [] a', 'a[', 'f(', '[1,', '.length', '. length', 'x.y',
                      's[0] = 1', '[f()]', '[[1]]', '[]', '[].length', '[][0]', '"s"[0]', '"s".length', '(1).length', '1[0]', 'write(write(1))',
@@ -324,6 +326,29 @@ def run_shard(spec):
             api_case(res, 'empty @is_you() { write(0x' + 'F' * 4000 + '); }', 'hex literal with 4000 digits', outcomes)
             api_case(res, 'empty @is_you() { write(' + '9' * 4000 + '); }', 'decimal literal with 4000 digits', outcomes)
             api_case(res, 'empty @is_you() { write(0x' + 'F' * 3000 + ' % 7); }', 'hex literal with 3000 digits', outcomes)
+    elif k == 'corpus':
+        # the template families of the other checks (operator grid in every position, placements, scope exits, memory and
+        # fault templates, typing tables): each must compile to something the assembler accepts, or be rejected cleanly
+        from . import c09, c17
+        from ..gen import placement, scopes, memprogs, faultgrid
+        srcs = []
+        for pos in c09.POSITIONS:
+            for ta, tb in c09.COMBOS[:2]:
+                srcs.append(c09.binary_program(c09.CMP, ta, tb, pos))
+        srcs += [c09.binary_program(c09.ARITH, 'byte', 'int', 'value', 'global'), c09.unary_program(), c09.unary_program('global'), c17.CALLER_PROG, c17.INT_PROG]
+        srcs += [src for i, (t, src) in enumerate(placement.programs()) if i % 11 == 0]
+        srcs += [src for t, src in placement.illegal_programs()]
+        srcs += [src for i, (t, src, ab) in enumerate(scopes.programs()) if i % 17 == 0]
+        srcs += [src for t, src, a in memprogs.cases(0, 0)]
+        for gen in (faultgrid.index_programs(), faultgrid.division_programs(), faultgrid.order_programs(), faultgrid.vla_programs(), faultgrid.nonlocal_programs()):
+            srcs += [A.render(item[1]) for item in gen]
+        srcs += [src for i, (t, src, e) in enumerate(T.operator_cases()) if src and i % 9 == 0]
+        seen = set()
+        for i, src in enumerate(srcs):
+            if i % spec['parts'] != spec['part'] or src in seen:
+                continue
+            seen.add(src)
+            api_case(res, src, 'template corpus', outcomes)
     elif k == 'truncations':
         base = corpus(r, spec['seed'], 3)
         for n, src in enumerate(base):
